@@ -6,6 +6,7 @@
 set -u
 id="$1"; out="${2:-/tmp/out_$id}"; name="${3:-$id}"
 . /verif/env.sh
+mkdir -p /var/tmp/gt; export TMPDIR=/var/tmp/gt
 wt=/tmp/cs_$name
 dst=/verif/seeded/$name
 mkdir -p "$dst"
